@@ -172,14 +172,14 @@ class Source:
             t = dedent(t, ind)
         return Item(name or fn_name, self.rel, self._line_of(b), t)
 
-    def slice(self, fn_name, start_re, end_re, header, name):
+    def slice(self, fn_name, start_re, end_re, header, name, nth=None):
         """R6: a contiguous statement range of fn_name's body, from the line matching start_re through the line
         matching end_re (inclusive; if that line opens a bracket the statement is taken to its matching close and `;`),
         wrapped as `header { <bytes> }`.  The bytes are copied verbatim and dedented."""
         ms = list(re.finditer(_FN_HDR % re.escape(fn_name), self.text))
-        if len(ms) != 1:
+        if nth is None and len(ms) != 1:
             raise ExtractError('slice: fn %s defined %d times in %s' % (fn_name, len(ms), self.rel))
-        b, o, e = fn_span(self.text, fn_name)
+        b, o, e = fn_span(self.text, fn_name, nth or 0)
         body = self.text[o + 1:e - 1]
         m1 = re.compile(start_re, re.M).search(body)
         if not m1:
@@ -195,6 +195,24 @@ class Source:
             e0 = body.find('\n', m2.end() - 1)
             if e0 < 0:
                 e0 = len(body)
+            # if the statement on that line opens a bracket, take it to its matching close (and the rest of that line)
+            depth, j = 0, s0
+            while j < len(body):
+                k = lex_skip(body, j)
+                if k is not None:
+                    j = k
+                    continue
+                if body[j] in '([{':
+                    depth += 1
+                elif body[j] in ')]}':
+                    depth -= 1
+                if j >= e0 - 1 and depth <= 0:
+                    break
+                j += 1
+            if j >= e0:
+                e0 = body.find('\n', j)
+                if e0 < 0:
+                    e0 = len(body)
         seg = body[s0:e0]
         # balance check: the slice must be a whole number of statements at one nesting level
         depth = 0
